@@ -30,7 +30,7 @@ TRUSTED_BASE = [
     "functools.lru_cache; weakref.WeakKeyDictionary (assumptions of the model: its actions are atomic)"]
 ASSUMPTIONS = ["the theorem is about all interleavings of the MODELLED atomic actions; real interleavings are "
                "explored at source-line granularity inside Fiddle by the deterministic scheduler"]
-FIDDLE_DIR = os.path.realpath("/repo/fiddle")
+FIDDLE_DIR = os.path.dirname(os.path.realpath(fdl.__file__))     # the fiddle package under test (/repo/fiddle)
 
 
 class Scheduler:
@@ -186,8 +186,11 @@ def canon(obj):
 
 
 def make_shared_fn():
+  """A fresh function and a fresh class per schedule (their signatures are not in any cache yet)."""
   ns = {}
-  exec("def shared(a, b=1, *, c=2):\n  return ('shared', a, b, c)\n", ns)  # pylint: disable=exec-used
+  exec("def shared(a, b=1, *, c=2):\n  return ('shared', a, b, c)\n"  # pylint: disable=exec-used
+       "class SharedCls:\n  def __init__(self, a, b=1):\n    self.a, self.b = a, b\n", ns)
+  ns["shared"].cls = ns["SharedCls"]
   return ns["shared"]
 
 
@@ -267,6 +270,18 @@ def prog_sig(shared):
   return run
 
 
+def prog_sig_cls(shared):
+  """First-time signature lookup of a shared CLASS (classes and functions take different paths)."""
+  def run(idx):
+    cls = shared.cls
+    cfg = fdl.Config(cls, idx)
+    cfg.b = idx + 1
+    sig1 = signatures.get_signature(cls)
+    built = fdl.build(cfg)
+    return ("sigcls", str(sig1), (built.a, built.b), signatures.has_signature(cls))
+  return run
+
+
 def prog_fail(shared):
   def run(idx):
     def boom(x):
@@ -284,7 +299,7 @@ def prog_fail(shared):
 
 
 PROGRAMS = [prog_build, prog_edit, prog_edit, prog_long_suspend, prog_long_suspend, prog_copy, prog_dump, prog_sig,
-            prog_fail]
+            prog_sig_cls, prog_sig_cls, prog_fail]
 
 
 def strip_volatile(result):
@@ -339,6 +354,9 @@ def observed(prog_run, delay):
 def one_schedule(rng, res, stream, label, n_threads):
   shared = make_shared_fn()
   progs = [rng.choice(PROGRAMS) for _ in range(n_threads)]
+  if rng.random() < 0.2:
+    # every thread does the first-time lookup of the SAME shared callable (cold caches filled concurrently)
+    progs = [rng.choice([prog_sig_cls, prog_sig_cls, prog_sig])] * n_threads
   # sequential reference: each program alone (fresh shared function so caches start cold)
   seq_results = []
   seq_post = []
